@@ -22,6 +22,7 @@ import (
 	"gitlab.com/aquachain/aquachain/crypto"
 	"gitlab.com/aquachain/aquachain/params"
 	"gitlab.com/aquachain/aquachain/rlp"
+	"golang.org/x/crypto/argon2"
 	"verifharness/hx"
 )
 
@@ -212,12 +213,38 @@ func main() {
 	if run.Thorough() {
 		scale = 40
 	}
+	x.sectionPrimitive(rng.Fork(7), scale)
 	x.sectionVersion(rng.Fork(1), scale)
 	x.sectionVerify(rng.Fork(2), scale)
 	x.sectionHashes(rng.Fork(3), scale)
 	x.sectionSeal(rng.Fork(4), scale)
 	x.sectionEthash(rng.Fork(5), scale)
 	run.Finish()
+}
+
+// ---------------------------------------------------------------------------------------------------------------------
+// 0. the fork-selected hash is what the statement says: Keccak-256 for version 1, argon2id with 1 / 16 / 32 KiB
+//    (one pass, one lane, 32-byte tag) for versions 2 / 3 / 4 — judged against x/crypto/argon2 called directly.
+
+func (x *H) sectionPrimitive(r *hx.Rng, scale int) {
+	mem := map[int]uint32{2: 1, 3: 16, 4: 32}
+	n := 0
+	for i := 0; i < 60*scale; i++ {
+		data := r.Bytes([]int{0, 1, 40, 40, 40, 64, 500 + r.Intn(100)}[r.Intn(7)])
+		for v := 2; v <= 4; v++ {
+			got := crypto.VersionHash(byte(v), data)
+			want := argon2.IDKey(data, nil, 1, mem[v], 1, 32)
+			if string(got) != string(want) {
+				x.run.Violate("version-hash-parameters", fmt.Sprintf("version-hash-parameters v%d", v), map[string]string{"version": fmt.Sprint(v), "data": hexb(data)},
+					fmt.Sprintf("crypto.VersionHash(%d, data) = %s, argon2id(time 1, %d KiB, 1 lane) = %s", v, hexb(got), mem[v], hexb(want)))
+			}
+			n++
+		}
+		if got, want := crypto.VersionHash(1, data), crypto.Keccak256(data); string(got) != string(want) {
+			x.run.Violate("version-hash-parameters", "version-hash-parameters v1", hexb(data), "VersionHash(1, ·) is not Keccak-256")
+		}
+	}
+	x.run.Notes["primitive_checks"] = n
 }
 
 // ---------------------------------------------------------------------------------------------------------------------
